@@ -190,8 +190,22 @@ theorem slice_project_toplevel (sch : SchemaEval) (d : Doc) (p : String) (v : V)
 
 /-! ### 3. `$elemMatch` -/
 
-/-- The element picked by `$elemMatch` is the FIRST one on which the query matches: it matches and
-    nothing before it does (`elemMatches … = .error .notMatched` is "does not match"). -/
+/-- `elemMatches sch q x` is the verdict of a projection `$elemMatch` on one element: the element
+    must be ELIGIBLE — a query consisting of field conditions only (no `$` key) applies to embedded
+    documents only, every other element is skipped without evaluating the query — and the query
+    must accept the virtual document `{item: x}`. -/
+theorem elemMatch_eligibility (sch : SchemaEval) (query : Doc) (x : V) :
+    (elemEligible query x = !((query.all fun (k, _) => !isOpKey k) && !x.isDoc)) ∧
+    (elemMatches sch query x = .ok () ↔
+      elemEligible query x = true ∧ mProcess sch [("item", x)] query "item" false = .ok ()) ∧
+    (elemMatches sch query x = .error .notMatched ↔
+      elemEligible query x = false ∨
+        mProcess sch [("item", x)] query "item" false = .error .notMatched) :=
+  ⟨rfl, elemMatches_ok_iff sch query x, elemMatches_notMatched_iff sch query x⟩
+
+/-- The element picked by `$elemMatch` is the FIRST element that is eligible and on which the query
+    matches: it matches, and every element before it is ineligible or rejected
+    (`elemMatches … = .error .notMatched`, see `elemMatch_eligibility`). -/
 theorem elemMatch_first (sch : SchemaEval) (query : Doc) (arr : List V) (x : V) :
     firstElemMatch sch query arr = .ok (some x) ↔
       ∃ pre post, arr = pre ++ x :: post ∧
@@ -199,13 +213,14 @@ theorem elemMatch_first (sch : SchemaEval) (query : Doc) (arr : List V) (x : V) 
         elemMatches sch query x = .ok () :=
   firstElemMatch_some
 
-/-- Nothing is picked iff no element matches. -/
+/-- Nothing is picked iff every element is ineligible or rejected. -/
 theorem elemMatch_none (sch : SchemaEval) (query : Doc) (arr : List V) :
     firstElemMatch sch query arr = .ok none ↔
       ∀ y ∈ arr, elemMatches sch query y = .error .notMatched :=
   firstElemMatch_none
 
-/-- A query error on an element aborts — unless an earlier element already matched. -/
+/-- A query error on an ELIGIBLE element aborts — unless an earlier element already matched;
+    ineligible elements are never evaluated, so they cannot raise an error. -/
 theorem elemMatch_error (sch : SchemaEval) (query : Doc) (arr : List V) (e : Err) :
     firstElemMatch sch query arr = .error e ↔
       ∃ pre x post, arr = pre ++ x :: post ∧
@@ -480,6 +495,12 @@ def doc1 : Doc :=
 #guard isOk (Project sch0 doc1 [("f", .doc [("$elemMatch", .doc [("g", .i32 5)])])])
         [("_id", .i32 7), ("f", .arr [.doc [("g", .i32 5)]])]
 #guard isOk (Project sch0 doc1 [("a", .doc [("$elemMatch", .doc [("$gt", .i32 9)])])]) [("_id", .i32 7)]
+-- a field-only query skips non-document elements (here: a scalar before the matching document)
+#guard isOk (Project sch0 [("_id", .i32 1), ("f", .arr [.i32 5, .doc [("g", .i32 5)]])]
+          [("f", .doc [("$elemMatch", .doc [("g", .i32 5)])])])
+        [("_id", .i32 1), ("f", .arr [.doc [("g", .i32 5)]])]
+#guard !elemEligible [("g", .i32 5)] (.i32 5) && elemEligible [("g", .i32 5)] (.doc []) &&
+       elemEligible [("$gt", .i32 2)] (.i32 5)
 -- 4. exclusion
 #guard isOk (Project sch0 doc1 [("a", .i32 0), ("f", .bool false)])
         [("_id", .i32 7), ("b", .str "x"), ("c", .doc [("d", .i32 1), ("e", .i32 2)])]
